@@ -1,10 +1,12 @@
 import GoSSE.Gen.Server
+import GoSSE.Model.Server
 /-!
 # `getTopics` of server.go as translated: no topics given means the default topic
 
 `Server.Publish(m, topics...)` hands `getTopics(topics)` to the provider: the topics as given, or — when none are given —
 the one-element list holding `DefaultTopic` (the empty name).
 -/
+set_option linter.unusedSimpArgs false
 namespace GoSSE.GenEquiv
 open GoSSE GoSSE.GoRT
 
@@ -17,5 +19,32 @@ theorem getTopics_eq (fuel : Nat) (l : List Bytes) :
     simp [len, pure, Except.pure]
     intro h
     omega
+
+/-- **`Server.getSubscription` as translated** (`OnSession`, the caller's callback, is a parameter: `none` = the field is
+nil; how the `*Session` is seen through the `MessageWriter` interface is a parameter too): the subscription is for this
+very session and its `LastEventID`; its topics and the verdict are the model's `getSubscription` of what the callback
+answered when it was given the session's writer and request — the default topic unless the callback approved *and* named
+at least one topic. No fault, the server and the session untouched. -/
+theorem getSubscription_eq {σ : Type} (fuel : Nat) (s : Gen.Server) (sess : Gen.Session σ)
+    (asW : Gen.Session σ → MsgWriter Gen.Message σ) (onS : Option (ResW σ → Option HttpReq → (List Bytes × Bool))) :
+    Gen.Server_getSubscription fuel s sess asW onS =
+      .ok (({ Client := asW sess, LastEventID := sess.LastEventID,
+              Topics := (Model.Server.getSubscription none (onS.map fun f => f sess.Res sess.Req)).1.topics } : Gen.Subscription σ),
+           (Model.Server.getSubscription none (onS.map fun f => f sess.Res sess.Req)).2, s, sess) := by
+  unfold Gen.Server_getSubscription Model.Server.getSubscription
+  cases onS with
+  | none => simp [pure, Except.pure, Model.Server.defaultTopicSlice, Model.Server.defaultTopic]
+  | some f =>
+    simp only [Option.isSome_some, if_true, derefPtr, bind, Except.bind, pure, Except.pure, Option.map_some]
+    cases hr : f sess.Res sess.Req with
+    | mk topics ok =>
+      cases ok with
+      | false => simp [pure, Except.pure, Model.Server.defaultTopicSlice, Model.Server.defaultTopic]
+      | true =>
+        cases topics with
+        | nil => simp [len, pure, Except.pure, Model.Server.defaultTopicSlice, Model.Server.defaultTopic]
+        | cons a t =>
+          have : (len (a :: t) > (0 : Int)) := by simp [len] <;> omega
+          simp [this, pure, Except.pure]
 
 end GoSSE.GenEquiv
